@@ -855,6 +855,15 @@ impl Rasn {
                 let enumerable_id = self.to_rust_enum_identifier(enumerable);
                 Ok(quote!(#enum_name::#enumerable_id))
             }
+            ASN1Value::LinkedElsewhereDefinedValue {
+                identifier: e,
+                can_be_const: false,
+                ..
+            } => {
+                // the referenced value is a lazily initialized static, not a constant
+                let referenced = self.to_rust_const_case(e);
+                Ok(quote!(#referenced.clone()))
+            }
             ASN1Value::LinkedElsewhereDefinedValue { identifier: e, .. }
             | ASN1Value::ElsewhereDeclaredValue { identifier: e, .. } => {
                 Ok(self.to_rust_const_case(e).to_token_stream())
